@@ -34,12 +34,15 @@ pub fn image_bits(bytes: &[u8]) -> Vec<u64> {
 enum Item {
     U(u64),
     S(String),
+    /// four 8-byte writes: the hashed sequence ends exactly on a 32-byte stripe
+    Q((u64, u64, u64, u64)),
 }
 
 fn pos_of(it: &Item, seed: u64, k: u16, cap: u64) -> Vec<u64> {
     match it {
         Item::U(x) => positions(x, seed, k, cap),
         Item::S(s) => positions(&s.as_str(), seed, k, cap),
+        Item::Q(q) => positions(q, seed, k, cap),
     }
 }
 
@@ -62,7 +65,13 @@ fn scenario(out: &mut Shards, rng: &mut Rng, nbits: u64, k: u16, seed: u64, n_it
         out.ev(json!({"op":"BNew","id":id,"cap":cap,"k":k}));
     }
     let items: Vec<Item> = (0..n_items)
-        .map(|i| if i % 3 == 0 { Item::S(format!("item-{}", rng.below(1 << 30))) } else { Item::U(rng.next()) })
+        .map(|i| match i % 7 {
+            0 | 3 => Item::S(format!("item-{}", rng.below(1 << 30))),
+            // strings of 31, 63, 95 bytes: with the 0xff terminator the hashed sequence is whole stripes
+            5 => Item::S(format!("{:0>width$}", rng.below(1 << 30), width = [31usize, 63, 95, 15, 16][(i / 7) % 5])),
+            6 => Item::Q((rng.next(), rng.next(), rng.next(), rng.next())),
+            _ => Item::U(rng.next()),
+        })
         .collect();
     for i in 0..n_ops {
         let which = if rng.chance(1, 3) { 1 } else { 0 };
@@ -74,18 +83,21 @@ fn scenario(out: &mut Shards, rng: &mut Rng, nbits: u64, k: u16, seed: u64, n_it
                 match &it {
                     Item::U(x) => fs[which].insert(*x),
                     Item::S(s) => fs[which].insert(s.as_str()),
+                    Item::Q(q) => fs[which].insert(*q),
                 }
                 json!({"op":"BIns","id":which,"p":p,"used":fs[which].bits_used()})
             } else if r < 55 {
                 let was = match &it {
                     Item::U(x) => fs[which].contains_and_insert(x),
                     Item::S(s) => fs[which].contains_and_insert(&s.as_str()),
+                    Item::Q(q) => fs[which].contains_and_insert(q),
                 };
                 json!({"op":"BCai","id":which,"p":p,"was":was,"used":fs[which].bits_used()})
             } else if r < 80 {
                 let res = match &it {
                     Item::U(x) => fs[which].contains(x),
                     Item::S(s) => fs[which].contains(&s.as_str()),
+                    Item::Q(q) => fs[which].contains(q),
                 };
                 json!({"op":"BQ","id":which,"p":p,"res":res})
             } else if r < 87 {
@@ -133,6 +145,7 @@ fn scenario(out: &mut Shards, rng: &mut Rng, nbits: u64, k: u16, seed: u64, n_it
                         let res = match it {
                             Item::U(x) => fs[to].contains(x),
                             Item::S(s) => fs[to].contains(&s.as_str()),
+                            Item::Q(q) => fs[to].contains(q),
                         };
                         out.ev(json!({"op":"BQ","id":to,"p":p,"res":res}));
                     }
